@@ -53,11 +53,11 @@ def prehistory(m, calc):
     mk = lambda **kw: m.Shot(m.Weapon(U.Inch(2.6), U.Inch(8)), m.Ammo(dm, U.FPS(3000)), **kw)
     res = []
     for req in (lambda: calc.fire(mk(cant_angle=U.Degree(30)), U.Foot(40), U.Foot(10)),
-                lambda: calc.set_weapon_zero(mk(), U.Yard(10)),                      # a zero that succeeds, much nearer than usual
-                lambda: calc.barrel_elevation_for_target(mk(), U.Meter(4)),
-                lambda: calc.fire(mk(), U.Foot(12), U.Inch(2)),                      # a card finer than the integration step
                 lambda: calc.set_weapon_zero(mk(), U.Yard(9000)),
-                lambda: calc.barrel_elevation_for_target(mk(look_angle=U.Degree(-12)), U.Yard(7000))):
+                lambda: calc.barrel_elevation_for_target(mk(look_angle=U.Degree(-12)), U.Yard(7000)),
+                lambda: calc.fire(mk(cant_angle=U.Degree(-20)), U.Foot(12), U.Inch(2)),   # a card finer than the integration step, canted
+                lambda: calc.set_weapon_zero(mk(), U.Yard(10)),                      # zeros that succeed, much nearer than usual:
+                lambda: calc.barrel_elevation_for_target(mk(), U.Meter(4))):         # the LAST thing the calculator did
         try:
             req()
             res.append("returned")
